@@ -572,6 +572,21 @@ func c01LaneA(c *Ctx, root *Rng, n int) []*c01Case {
 				label = "long-identifiers"
 				break
 			}
+			if r.Bool() {
+				// name lists, value lists and parameter lists of 250-400 entries (beyond what the language itself allows
+				// per function, but a server reads whatever is in the file): positions counted in small integer types
+				n := r.Range(250, 400)
+				var ns, vs []string
+				for k := 1; k <= n; k++ {
+					ns = append(ns, fmt.Sprintf("a%d", k))
+					vs = append(vs, fmt.Sprint(k))
+				}
+				nl, vl := strings.Join(ns, ", "), strings.Join(vs, ", ")
+				base = fmt.Sprintf("---@return number\nlocal function f()\n  return 1\nend\nlocal function g(%s)\n  return %s\nend\nlocal %s = f()\nprint(a1, a255, a256, a%d)\nlocal t = { g(%s) }\n%s = g(%s)\nfor %s in pairs(t) do print(a256) end\nprint(a257, a%d)\n",
+					nl, nl, nl, n, vl, strings.ReplaceAll(nl, "a", "G"), vl, strings.Join(ns[:r.Range(3, n)], ", "), n)
+				label = "long-name-lists"
+				break
+			}
 			base = strings.Repeat("local a = 1 ", 4000) // one long line (~48 KB)
 			label = "long-line"
 		case 5:
@@ -616,6 +631,19 @@ func c01LaneA(c *Ctx, root *Rng, n int) []*c01Case {
 			maxPos = 12
 		}
 		cs.Steps = c01Sweep(r, "m.lua", wire, maxPos, c01PosMethods)
+		if strings.HasPrefix(label, "long-name-lists") {
+			// requests on the names around the 255th / 256th position of the lists
+			nreq := 0
+			for _, tk := range RLex([]byte(wire)).Toks {
+				if tk.K == TName && (tk.Val == "a255" || tk.Val == "a256" || tk.Val == "a257" || tk.Val == "G256") && nreq < 60 {
+					p := posAt([]byte(wire), tk.Off)
+					for _, m := range []string{"textDocument/hover", "textDocument/definition", "textDocument/references"} {
+						cs.Steps = append(cs.Steps, c01PosRequest(m, "file://$ROOT/m.lua", p, r))
+						nreq++
+					}
+				}
+			}
+		}
 		// workspace/symbol with queries that match names of the file: prefixes of a few of its identifiers
 		for _, tk := range RLex([]byte(wire)).Toks {
 			if tk.K == TName && len(tk.Val) >= 3 && r.Chance(1, 12) {
